@@ -16,14 +16,22 @@ R3 working directory: `Target` receives the target's own `workdir` and a `Deploy
    reads the deployment's own `workdir` before following `wraps`, continues only while it is None, returns it.
 R4 binding tree construction (added): `put` stores the value at the node reached after the whole walk; the keys
    "step"/"port" are written only by `_process_binding` (through `put`) and by `set_targets`, which never overwrites an
-   explicit binding and hands each node's *own* effective target down to its children.
+   explicit binding and hands each node's *own* effective target down to its children.  Every caller of `set_targets`
+   starts it at the root (`self.filesystem`, no inherited target) and no binding insertion (`put` or a WorkflowConfig
+   method that reaches `put`) is reachable in the caller's CFG after the call: inheritance is materialised on the
+   complete tree (set_targets never overwrites, so a value frozen on a half-built tree shadows a binding listed later).
+R5 resolution is a function of the configuration at hand: the resolver functions (get_binding_config and its callees
+   in streamflow.deployment.utils / streamflow.config.config, every WorkflowConfig method, set_targets) carry no
+   memoising decorator, no mutable default argument, no `global`/`nonlocal` declaration, and never store into / call a
+   mutating method on an object rooted at a module-level name (module dict, function attribute, imported module).  A
+   result memoised outside the WorkflowConfig survives into the next configuration of the same process.
 """
 
 from __future__ import annotations
 
 import ast
 
-from ..model import unparse
+from ..model import dotted, unparse
 from ..selftest import V
 from ._util_C import (
     branch,
@@ -607,8 +615,158 @@ def r4(ctx):
                message=f"`{unparse(c)}` does not recurse with the node's own effective target: grandchildren of a bound "
                        "step inherit from the wrong ancestor")
 
+    # ---- inheritance is materialised once the tree is complete
+    wc = p.cls(WC)
+    inserters = {PUT}
+    grew = True
+    while grew:
+        grew = False
+        for m in wc.methods.values():
+            if m.name != "__init__" and m.qualname not in inserters and any(resolves_to(p, m, c, *inserters) for c in m.calls()):
+                inserters.add(m.qualname)
+                grew = True
+    sites = [(cf, c) for cf, c in p.callers(st.qualname) if cf.qualname != st.qualname]
+    ctx.ob("R4", "WorkflowConfig.__init__ materialises the inherited targets", any(cf.qualname == f"{WC}.__init__" for cf, _ in sites),
+           func=p.func(f"{WC}.__init__"), node=None, instance="set_targets:called",
+           message="WorkflowConfig.__init__ no longer calls set_targets")
+    for cf, c in sites:
+        a0, a1 = kwarg(c, node_p, 0), kwarg(c, tgt_p, 1)
+        ok_args = a0 is not None and a1 is not None and all(unparse(o) == "self.filesystem" for o in origins(cf, a0)) \
+            and all(const(o) is None for o in origins(cf, a1))
+        ctx.ob("R4", "target inheritance starts at the root of the binding tree with no inherited target", ok_args, func=cf, node=c,
+               instance=f"set_targets-root:{cf.qualname}",
+               message=f"`{unparse(c)}` does not start at `self.filesystem` with target None")
+        cg = cf.cfg
+        st_ids = cg.node_containing(c)
+        ctx.require(bool(st_ids), f"C28.R4: set_targets call of {cf.qualname} not found in its CFG")
+        after = cg.reach(st_ids)
+        late = [n for n in cg.nodes.values() if n.id in after and any(resolves_to(p, cf, k, *inserters) for k in n.calls())]
+        wit = cg.path(st_ids[0], [late[0].id]) if late else None
+        ctx.ob("R4", "target inheritance runs after all bindings were inserted (no insertion can follow set_targets)", not late,
+               func=cf, node=c, instance=f"set_targets-final:{cf.qualname}",
+               message=f"`{unparse(c)}` can be followed by `{late[0].text()[:70] if late else ''}`: set_targets never overwrites, so "
+                       "targets inherited on the half-built tree shadow a binding inserted later (a deeper binding listed "
+                       "before its ancestor's keeps the stale target)",
+               witness=cg.describe(wit) if wit else [])
 
-RULES = [("R1", r1), ("R2", r2), ("R3", r3), ("R4", r4)]
+
+# --------------------------------------------------------------------------- R5
+
+_MUTATORS = {
+    "add", "append", "appendleft", "extend", "insert", "update", "setdefault", "pop", "popitem", "clear", "remove", "discard",
+    "__setitem__", "__delitem__", "__setattr__",
+}
+_MEMO_WORDS = ("cache", "memo", "lru")
+_CONTAINERS = {"dict", "list", "set", "bytearray", "defaultdict", "OrderedDict", "Counter", "deque", "ChainMap",
+               "WeakValueDictionary", "WeakKeyDictionary", "WeakSet"}
+
+
+def _root_name(e):
+    while isinstance(e, (ast.Attribute, ast.Subscript)):
+        e = e.value
+    return e.id if isinstance(e, ast.Name) else None
+
+
+def _local_names(f):
+    out = set(f.params)
+    declared = set()
+    for n in ast.walk(f.node):
+        if isinstance(n, ast.Name) and isinstance(n.ctx, (ast.Store, ast.Del)):
+            out.add(n.id)
+        elif isinstance(n, (ast.FunctionDef, ast.AsyncFunctionDef, ast.ClassDef)) and n is not f.node:
+            out.add(n.name)
+        elif isinstance(n, ast.arg):
+            out.add(n.arg)
+        elif isinstance(n, ast.ExceptHandler) and n.name:
+            out.add(n.name)
+        elif isinstance(n, (ast.Import, ast.ImportFrom)):
+            out.update((a.asname or a.name).split(".")[0] for a in n.names)
+        elif isinstance(n, (ast.Global, ast.Nonlocal)):
+            declared.update(n.names)
+    return out - declared, declared
+
+
+def _state_leaks(p, f):
+    """Ways in which `f` keeps something beyond one call: [(ast node, description)]."""
+    out = []
+    for d in f.decorators:
+        target = d.func if isinstance(d, ast.Call) else d
+        names = [unparse(target)] + [q for q in (p.resolve_call(f, d) if isinstance(d, ast.Call) else [])]
+        full = f.module.imports.get(_root_name(target) or "", "")
+        if any(w in (nm + " " + full).lower() for nm in names for w in _MEMO_WORDS):
+            out.append((d, f"memoising decorator `@{unparse(d)}`"))
+    a = f.node.args
+    for dflt in list(a.defaults) + [k for k in a.kw_defaults if k is not None]:
+        ctor = (dotted(dflt.func) or "").rpartition(".")[2] if isinstance(dflt, ast.Call) else ""
+        if isinstance(dflt, (ast.Dict, ast.List, ast.Set, ast.DictComp, ast.ListComp, ast.SetComp)) or ctor in _CONTAINERS \
+                or any(w in ctor.lower() for w in _MEMO_WORDS):
+            out.append((dflt, f"mutable default argument `{unparse(dflt)}` (shared by all calls)"))
+    local, declared = _local_names(f)
+    if declared:
+        out.append((f.node, f"`global`/`nonlocal` declaration of {sorted(declared)}"))
+    for n in ast.walk(f.node):
+        tgts = []
+        if isinstance(n, ast.Assign):
+            tgts = n.targets
+        elif isinstance(n, (ast.AugAssign, ast.AnnAssign)):
+            tgts = [n.target]
+        elif isinstance(n, ast.Delete):
+            tgts = n.targets
+        elif isinstance(n, ast.NamedExpr):
+            tgts = [n.target]
+        flat = []
+        for t in tgts:
+            flat.extend(t.elts if isinstance(t, (ast.Tuple, ast.List)) else [t])
+        for t in flat:
+            if isinstance(t, ast.Starred):
+                t = t.value
+            if isinstance(t, (ast.Attribute, ast.Subscript)):
+                r = _root_name(t)
+                if r is not None and r not in local:
+                    out.append((n, f"store into module-level state `{unparse(t)}`"))
+        if isinstance(n, ast.Call) and isinstance(n.func, ast.Attribute) and n.func.attr in _MUTATORS:
+            r = _root_name(n.func.value)
+            if r is not None and r not in local:
+                out.append((n, f"mutation of module-level state `{unparse(n.func)}(...)`"))
+    return out
+
+
+def _resolvers(p):
+    mods = (CFGM, DU)
+    todo = [GBC, f"{CFGM}.set_targets"] + [m.qualname for m in p.cls(WC).methods.values()]
+    seen = {}
+    while todo:
+        q = todo.pop()
+        if q in seen or q not in p.functions:
+            continue
+        f = p.functions[q]
+        if f.module.name not in mods:
+            continue
+        seen[q] = f
+        for n in ast.walk(f.node):
+            if isinstance(n, ast.Call):
+                ef = p.enclosing_func(n) or f
+                todo.extend(x for x in p.resolve_call(ef, n) if x.rpartition(".")[0].startswith(mods))
+            elif isinstance(n, (ast.FunctionDef, ast.AsyncFunctionDef, ast.Lambda)) and n is not f.node:
+                nq = f"{q}.<locals>.{getattr(n, 'name', '')}"
+                todo.append(nq)
+    return [seen[q] for q in sorted(seen)]
+
+
+def r5(ctx):
+    p = ctx.prog
+    fs = _resolvers(p)
+    ctx.require(any(f.qualname == GWD for f in fs) and any(f.qualname == PROP for f in fs),
+                "C28.R5: _get_workdir / propagate are not among the functions reached from get_binding_config")
+    for f in fs:
+        leaks = _state_leaks(p, f)
+        ctx.ob("R5", f"{f.qualname} keeps no state outside the configuration it is given", not leaks, func=f,
+               node=leaks[0][0] if leaks else f.node, instance=f"stateless:{f.qualname}",
+               message=f"{leaks[0][1] if leaks else ''}: a binding / working directory resolved for one configuration is "
+                       "reused for the next one in the same process (resolution result memoised across configurations)")
+
+
+RULES = [("R1", r1), ("R2", r2), ("R3", r3), ("R4", r4), ("R5", r5)]
 FLOORS = {"R1": 14, "R2": 10, "R3": 6, "R4": 6}
 
 _FALLBACK_OLD = "        return BindingConfig(targets=targets, filters=[FilterConfig(name=c.name, type=c.type, config=c.config) for c in config.get('filters')])\n    else:\n        return BindingConfig(targets=[LocalTarget()])"
